@@ -18,6 +18,12 @@ import (
 //   - newWriteSizer installs a CRC writer over the destination when asked to calculate CRCs, and NewWriter asks
 //     according to WriterOptions.IncludeCRC (likewise for the chunk writer's computeCRC switch).
 func checkCRCPrimitives(p *Program, r *Result, rule string) {
+	// second architecture: the writeSizer keeps the running CRC itself (a field its Write feeds, behind a switch that
+	// the constructor sets from its calculate-CRC argument) instead of delegating to a crcWriter
+	if own := accumulatorFactsOpt(p, "writeSizer", false); own != nil {
+		checkOwnCRCAccumulator(p, r, rule, own)
+		return
+	}
 	af := accumulatorFactsOpt(p, "crcWriter", false)
 	if af == nil {
 		r.undecided(rule, "mcap.crcWriter", "running CRC", "", "crcWriter.Write does not feed a CRC field in a recognised way")
@@ -250,6 +256,129 @@ func checkCRCPrimitives(p *Program, r *Result, rule string) {
 		}
 	}
 	// chunk writer: the computeCRC switch comes from IncludeCRC
+	if nc := p.lookupFunc(pkgMcap, "newCountingCRCWriter"); nc != nil {
+		if nw := p.lookupFunc(pkgMcap, "NewWriter"); nw != nil {
+			n, good := 0, 0
+			for _, ci := range callsIn(nw, func(ci ssa.CallInstruction) bool { return ci.Common().StaticCallee() == nc }) {
+				n++
+				for _, a := range ci.Common().Args {
+					if loadOfField(a, "WriterOptions", "IncludeCRC") {
+						good++
+					}
+				}
+			}
+			if n > 0 && good == n {
+				r.held(rule, funcName(nw), "IncludeCRC selects CRC calculation for chunks", p.pos(nw.Pos()), "every chunk writer is constructed with WriterOptions.IncludeCRC")
+			} else if n > 0 {
+				r.violated(rule, funcName(nw), "IncludeCRC selects CRC calculation for chunks", p.pos(nw.Pos()), "a chunk writer is constructed without WriterOptions.IncludeCRC as its compute-CRC argument")
+			}
+		}
+	}
+}
+
+func checkOwnCRCAccumulator(p *Program, r *Result, rule string, af *accFacts) {
+	var readOK, resetOK bool
+	for m, am := range af.methods {
+		switch m.Name() {
+		case "Checksum":
+			readOK = am.reads[af.crcField]
+		case "ResetCRC":
+			resetOK = am.resets[af.crcField]
+		}
+	}
+	if fn := p.lookupFunc(pkgMcap, "writeSizer.Checksum"); fn != nil {
+		if readOK {
+			r.held(rule, funcName(fn), "returns the running CRC of the destination", p.pos(fn.Pos()), "returns the field that Write feeds")
+		} else {
+			r.violated(rule, funcName(fn), "returns the running CRC of the destination", p.pos(fn.Pos()), "writeSizer.Checksum does not return the CRC accumulated by Write: the data-section and summary CRCs of every file are wrong")
+		}
+	} else {
+		r.undecided(rule, "mcap.writeSizer.Checksum", "anchor", "", "not found")
+	}
+	if fn := p.lookupFunc(pkgMcap, "writeSizer.ResetCRC"); fn != nil {
+		if resetOK {
+			r.held(rule, funcName(fn), "resets the running CRC of the destination", p.pos(fn.Pos()), "resets the field that Write feeds")
+		} else {
+			r.violated(rule, funcName(fn), "resets the running CRC of the destination", p.pos(fn.Pos()), "writeSizer.ResetCRC does not reset the CRC accumulated by Write; the summary CRC then also covers the data section")
+		}
+	} else {
+		r.undecided(rule, "mcap.writeSizer.ResetCRC", "anchor", "", "not found")
+	}
+	// the switch: Write hashes on the true side of a boolean field that the constructor sets from its bool parameter
+	wr := p.lookupFunc(pkgMcap, "writeSizer.Write")
+	ctor := p.lookupFunc(pkgMcap, "newWriteSizer")
+	flagField := ""
+	if wr != nil {
+		for _, in := range instrsOf(wr) {
+			isHash := false
+			switch x := in.(type) {
+			case *ssa.Store:
+				if _, f, _, ok := fieldRef(x.Addr); ok && f == af.crcField {
+					isHash = true
+				}
+			case ssa.CallInstruction:
+				if x.Common().IsInvoke() && x.Common().Method.Name() == "Write" && hasMethod(x.Common().Value.Type(), "Sum32") {
+					isHash = true
+				}
+			}
+			if !isHash {
+				continue
+			}
+			for d := in.Block(); d != nil; d = d.Idom() {
+				if len(d.Preds) != 1 {
+					continue
+				}
+				pr := d.Preds[0]
+				if iff, ok := pr.Instrs[len(pr.Instrs)-1].(*ssa.If); ok && pr.Succs[0] == d {
+					if u, ok := iff.Cond.(*ssa.UnOp); ok && u.Op == token.MUL {
+						if tn, f, _, ok := fieldRef(u.X); ok && tn == "writeSizer" {
+							flagField = f
+						}
+					}
+				}
+			}
+		}
+	}
+	okCtor := false
+	if ctor != nil {
+		var flag *ssa.Parameter
+		for _, prm := range ctor.Params {
+			if b, ok := prm.Type().Underlying().(*types.Basic); ok && b.Kind() == types.Bool {
+				flag = prm
+			}
+		}
+		if flagField == "" {
+			// unconditional hashing: nothing to switch
+			okCtor = wr != nil
+		} else if flag != nil {
+			for _, st := range fieldStores(ctor, "writeSizer", flagField) {
+				if st.Val == ssa.Value(flag) {
+					okCtor = true
+				}
+			}
+		}
+		if okCtor {
+			r.held(rule, funcName(ctor), "installs a CRC writer over the destination when asked", p.pos(ctor.Pos()), "the calculate-CRC argument is the switch under which Write feeds the running CRC")
+		} else {
+			r.violated(rule, funcName(ctor), "installs a CRC writer over the destination when asked", p.pos(ctor.Pos()),
+				"newWriteSizer does not store its calculate-CRC argument into the switch that Write tests before feeding the running CRC; IncludeCRC is then ignored")
+		}
+		if nw := p.lookupFunc(pkgMcap, "NewWriter"); nw != nil && flag != nil {
+			okOpt := false
+			for _, ci := range callsIn(nw, func(ci ssa.CallInstruction) bool { return ci.Common().StaticCallee() == ctor }) {
+				for i, a := range ci.Common().Args {
+					if i < len(ctor.Params) && ctor.Params[i] == flag && loadOfField(a, "WriterOptions", "IncludeCRC") {
+						okOpt = true
+					}
+				}
+			}
+			if okOpt {
+				r.held(rule, funcName(nw), "IncludeCRC selects CRC calculation for the file", p.pos(nw.Pos()), "WriterOptions.IncludeCRC is the constructor's calculate-CRC argument")
+			} else {
+				r.violated(rule, funcName(nw), "IncludeCRC selects CRC calculation for the file", p.pos(nw.Pos()), "the writeSizer is not constructed with WriterOptions.IncludeCRC as its calculate-CRC argument")
+			}
+		}
+	}
 	if nc := p.lookupFunc(pkgMcap, "newCountingCRCWriter"); nc != nil {
 		if nw := p.lookupFunc(pkgMcap, "NewWriter"); nw != nil {
 			n, good := 0, 0
